@@ -638,7 +638,7 @@ func (p *parser) createAssertions(r []string) (bool, error) {
 	if symbol, err = p.registry.Commodities().Get(r[opfSymbol]); err != nil {
 		return false, err
 	}
-	if quantity, err = decimal.NewFromString(r[opfQuantity]); err != nil {
+	if quantity, err = parseDecimal(r[opfQuantity]); err != nil {
 		return false, err
 	}
 	p.builder.Add(&model.Assertion{
